@@ -73,3 +73,16 @@ Example add_reads_example :
   cp_add cp_init [1; 2; 3; 4; 5; 6; 7; 8; 99; 98] 8 = cp_add cp_init [1; 2; 3; 4; 5; 6; 7; 8] 8 /\
   snd (cp_add cp_init [1; 2; 3; 4; 5; 6; 7; 8; 99; 98] 8) = Ok 0.
 Proof. vm_compute. split; reflexivity. Qed.
+
+(* history form: two histories whose calls have the same sizes and buffers that agree on their first `size` bytes produce the
+   same pool and the same answers, from any starting pool *)
+Definition same_reads (c1 c2 : cmd) : Prop :=
+  snd c1 = snd c2 /\ firstn (Z.to_nat (snd c1)) (fst c1) = firstn (Z.to_nat (snd c1)) (fst c2).
+
+Theorem run_reads_only_sizes_thm cmds1 : forall cmds2 p, Forall2 same_reads cmds1 cmds2 -> run p cmds1 = run p cmds2.
+Proof.
+  induction cmds1 as [|(d1, s1) r1 IH]; intros cmds2 p F; inversion F as [|? c2 ? r2 H1 H2]; subst; [reflexivity|].
+  destruct c2 as (d2, s2). destruct H1 as (E1 & E2). simpl in E1, E2. subst s2.
+  cbn [run]. rewrite (add_reads_only_size_thm p d1 d2 s1 E2).
+  destruct (cp_add p d2 s1) as (p1, res). rewrite (IH r2 p1 H2). reflexivity.
+Qed.
